@@ -32,7 +32,7 @@ CLAIMED.update({
 
 CLAIMED.update({
  'C12': dict(
-   text="Function-level proofs: LIMIT/OFFSET window arithmetic and TopN heap sizing for every (offset, limit), chunking and batch size; the merge heap, visible-row search and pick loop used by ordered scans (output in key order, visible rows only); the optimizer's order analysis only reports an order through order-keeping operators and is_orderby requires a prefix; the disk scan merges the RowSets by the key column whenever the optimizer assumes key order (never concatenates them). Bounded: N-sqlorder checks ORDER BY / LIMIT / OFFSET results on 3 table shapes x 1-3 RowSets x 4 layouts. Partial: the sort executor itself and the egg rules that consume the analysis are not under contract.",
+   text="Function-level proofs: LIMIT/OFFSET window arithmetic and TopN heap sizing for every (offset, limit), chunking and batch size; the merge heap, visible-row search and pick loop used by ordered scans (output in key order, visible rows only); the optimizer's order analysis only reports an order through order-keeping operators and is_orderby requires a prefix; the disk scan merges the RowSets by the key column whenever the optimizer assumes key order (never concatenates them). the TopN row loop keeps a choice of the offset+limit smallest rows seen (multiset invariant over an abstract max-heap), for every chunking. Bounded: N-sqlorder checks ORDER BY / LIMIT / OFFSET results on 3 table shapes x 1-3 RowSets x 4 layouts. Partial: the sort executor itself and the egg rules that consume the analysis are not under contract.",
    note='Assumes: limit/offset come from non-negative i64 constants (textual guard on executor/mod.rs); A-exec-order (which executors keep order), A-singlepk (binder rejects several PRIMARY KEY columns), A-cmp (comparator is a total preorder); yield/continue/break lines, the child stream and DataChunk::slice are not extracted.',
    technique='Verus contracts on statement ranges extracted from the LIMIT/TopN coroutines, MergeIterator, analyze_order and scan_inner + one bounded native SQL search', design='5 (C12), 4.5 U-limit/U-topncap'),
 })
